@@ -72,6 +72,8 @@ class CliFailures(Stream):
     def generate(self, rng):
         case = SS.gen_universe(rng, rng.choice(["dag-conflict", "dag-conflict", "dag-free", "extras", "cyclic", "late-extra-cycle"]))
         case["constraints"] = []
+        case["remove_constraints"] = rng.random() < 0.3
+        case["no_comments"] = rng.random() < 0.15
         names = list(case["universe"])
         # push towards failure: an absent project, an unmeetable bound, a corrupt file
         k = rng.random()
@@ -159,7 +161,10 @@ class CliFailures(Stream):
             r = run_cli(d, files, first=["--find-links", "broken"])
             r["without_twin"] = {"code": plain["code"], "stdout": plain["stdout"]}
         else:
-            r = run_cli(d, files)
+            # output options travel with the universe: --remove-constraints, --no-comments ... must not change how a
+            # failure is reported
+            r = run_cli(d, files, extra=(["--remove-constraints"] if case.get("remove_constraints") else []) +
+                        (["--no-comments"] if case.get("no_comments") else []))
         shutil.rmtree(d, ignore_errors=True)
         # the same universe through the in-memory repository, for the region
         # (releases whose files are all unreadable are not on offer)
